@@ -136,6 +136,16 @@ func genHistory(r *rng.R, long bool) history {
 	}
 	if hasVideo {
 		v := tcfgA{Kind: kH264, Rate: 90000, Params0: 1}
+		// video codec: fMP4 variants take all four; MPEG-TS takes H264 only (Start must reject the others)
+		if h.Variant != 1 {
+			v.Kind = []int{kH264, kH265, kVP9, kAV1}[r.Intn(4)]
+		} else if r.Bool(1, 8) {
+			v.Kind = []int{kH265, kVP9, kAV1}[r.Intn(3)]
+		}
+		v.Params0 = int64(r.Intn(12))
+		if v.Kind == kH264 {
+			v.Params0 = 1
+		}
 		pos := r.Intn(len(tracks) + 1) // any order of video / audio
 		tracks = append(tracks[:pos], append([]tcfgA{v}, tracks[pos:]...)...)
 	}
@@ -166,7 +176,7 @@ func genHistory(r *rng.R, long bool) history {
 		s := &st[i]
 		s.params = t.Params0
 		switch t.Kind {
-		case kH264:
+		case kH264, kH265, kVP9, kAV1:
 			fps := []int64{10, 15, 24, 25, 30, 50, 60}[r.Intn(7)]
 			s.frameDur = 90000 / fps
 			if r.Bool(1, 4) {
@@ -176,6 +186,11 @@ func genHistory(r *rng.R, long bool) history {
 			s.gop = []int{1, 2, 5, 10, 25, 30, 60, 100}[r.Intn(8)]
 			s.sinceKey = r.Intn(s.gop + 1) // may start mid-GOP
 			if s.sinceKey == 0 {
+				s.sinceKey = s.gop
+			}
+			if t.Kind == kAV1 && r.Bool(1, 2) {
+				// writeAV1 has no "wait for the first random-access unit" gate: keep half of the AV1
+				// histories starting on a sequence header so that the rest of C01 / C02 stays observable
 				s.sinceKey = s.gop
 			}
 			s.dts = startSec * 90000
@@ -205,7 +220,7 @@ func genHistory(r *rng.R, long bool) history {
 		s := &st[ti]
 		a := auA{Track: ti}
 		switch t.Kind {
-		case kH264:
+		case kH264, kH265, kVP9, kAV1:
 			key := s.sinceKey >= s.gop
 			if key {
 				s.sinceKey = 0
@@ -213,17 +228,30 @@ func genHistory(r *rng.R, long bool) history {
 			s.sinceKey++
 			a.RA = key
 			a.NonIDR = !key
-			if r.Bool(1, 40) { // a unit with neither IDR nor non-IDR slices (e.g. only parameter sets)
+			nalBased := t.Kind == kH264 || t.Kind == kH265
+			if nalBased && r.Bool(1, 40) { // a unit with neither IDR nor non-IDR slices (e.g. only parameter sets)
 				a.RA, a.NonIDR = false, false
 				if key {
 					s.sinceKey = s.gop // the key frame is still due
 				}
 			}
-			if a.RA {
-				a.HasParams, a.Params = true, s.params
-			}
-			if r.Bool(1, 25) { // parameter change, on IDR or non-IDR units
-				s.params = 1 + (s.params % 11)
+			if nalBased {
+				if a.RA {
+					a.HasParams, a.Params = true, s.params
+				}
+				if r.Bool(1, 25) { // parameter change, on IDR or non-IDR units
+					s.params = 1 + (s.params % 11)
+					a.HasParams, a.Params = true, s.params
+				}
+			} else if a.RA {
+				// VP9: the key frame's header IS the parameter set; AV1: the sequence header both marks
+				// random access and carries the parameters. Changes can only happen there.
+				if r.Bool(1, 5) {
+					s.params = 1 + (s.params % 11)
+					if r.Bool(1, 3) {
+						s.params = int64(r.Intn(12))
+					}
+				}
 				a.HasParams, a.Params = true, s.params
 			}
 			a.DTS = s.dts
